@@ -222,6 +222,10 @@ void column_mutants(const std::vector<Obj>& base, size_t oi, std::vector<Mutant>
         TableDef nt = t;
         nt.items.insert(nt.items.begin() + (long)(t.col_idx.empty() ? 0 : t.col_idx.back() + 1), " [zzExtra] INTEGER");
         emit(nt, "column_added", "add column to " + tn);
+        // and one whose name sorts before every other column (validators walk the columns in name order)
+        TableDef nf = t;
+        nf.items.insert(nf.items.begin() + (long)(t.col_idx.empty() ? 0 : t.col_idx.back() + 1), " [AaExtra] INTEGER");
+        emit(nf, "column_added_first_by_name", "add column sorting first to " + tn);
     }
     // table-level PRIMARY KEY constraint: drop it / extend it
     for (size_t i = 0; i < t.items.size(); ++i)
@@ -333,6 +337,17 @@ std::vector<Mutant> make_mutants(const std::vector<Obj>& base, bool column_level
                             }
                     }
                 auto rebuild = [&](const std::vector<std::string>& c2) { return o.sql.substr(0, open + 1) + join(c2, ",") + o.sql.substr(close); };
+                {
+                    // the same index made partial (an index already partial loses its WHERE clause instead)
+                    Mutant p2;
+                    p2.objs = base;
+                    std::string tail = o.sql.substr(close + 1), tail_up = tail;
+                    for (auto& c : tail_up) c = (char)toupper((unsigned char)c);
+                    if (tail_up.find("WHERE") != std::string::npos) { p2.objs[i].sql = o.sql.substr(0, close + 1); p2.kind = "index_partial_removed"; }
+                    else { p2.objs[i].sql = o.sql.substr(0, close + 1) + " WHERE rowid > 0"; p2.kind = "index_partial_added"; }
+                    p2.desc = "toggle the WHERE clause of index " + o.name;
+                    out.push_back(p2);
+                }
                 if (!other.empty())
                 {
                     Mutant a2;
@@ -682,8 +697,8 @@ int run(const Options& o)
     c["traces_validated_against_impl"] = total.get("validated") + refs_ok + total.get("reverify.inconsistency");
     c["rule"] =
         "For each schema version (and, for 1.x, separately for m.db and p.db) the DDL of a freshly created on-disk library is read from sqlite_master and every single-element mutation is generated "
-        "mechanically: for every table, view and index: drop, rename, add a new one; for every index: toggle UNIQUE, add / replace / remove / swap an indexed column; for every column of every "
-        "table: drop, rename, change declared type, toggle NOT NULL, add or change DEFAULT, toggle PRIMARY KEY membership, plus add a column and remove a table-level PRIMARY KEY constraint "
+        "mechanically: for every table, view and index: drop, rename, add a new one; for every index: toggle UNIQUE, toggle a WHERE clause (partial index), add / replace / remove / swap an indexed column; for every column of every "
+        "table: drop, rename, change declared type, toggle NOT NULL, add or change DEFAULT, toggle PRIMARY KEY membership, plus add a column (one whose name sorts last, one whose name sorts first) and remove a table-level PRIMARY KEY constraint "
         "(quick tier: column-level mutants on 1.6.0, 1.18.0-os, 2.18.0, 2.21.2 only; thorough: all 18). Each mutant is materialised by re-hydrating the database file from the mutated DDL "
         "(statements that no longer compile are dropped), placed in the proper layout, loaded and verified. A mutant whose independent structural fingerprint (C12's) equals the original's is "
         "equivalent and skipped. Rejecting side: every other mutant must end in database_inconsistency. Accepting side: the created library, a library re-hydrated from its unmutated DDL, and all "
